@@ -1085,12 +1085,12 @@ def run_histories(ctx, exports, q):
                 variants.sort(key=lambda b: [e['e'] for e in b['evals']])
                 # quick tier: every ordered pair of requests that TLC reports as colliding for an under-keyed memo (same
                 # size / first point / end points; also with the full grid in between) and every pair that starts with a
-                # refused request on every kind, a third of the rest
+                # refused request on every kind, a good quarter of the rest
                 collide = (ws[0], ws[-1]) in alpha.collide or (len(ws) == 2 and ws[0] in alpha.refused)
                 for kind in fh.KINDS:
                     if q and len(ws) == 3 and (not collide or (i + fh.KINDS.index(kind)) % 2):
                         continue
-                    if q and not collide and rng.random() > 0.34:
+                    if q and not collide and rng.random() > 0.27:
                         continue
                     T = rng.choice(fh.T_VALUES[kind])
                     mix = rng.choice(fh.MIX_VALUES[kind])
